@@ -9,7 +9,7 @@ Blank == [kind |-> "", n |-> 0, w |-> 0, val |-> "", val2 |-> "", rep |-> 0]
 Reps(q, t) == 1 .. (IF Quick THEN q ELSE t)
 Pts   == {"gen", "id", "idtors", "srs0", "srs255", "yhalf", "rnd"}
 Scal  == {"0", "1", "2", "r-1", "r-2", "h", "2^64", "2^64-1", "2^63", "2^128", "2^128-1", "2^192-1", "2^252", "rnd1", "rnd2", "rnd3"}
-CVals == {"0", "1", "255", "h-1", "h", "h+1", "r-1", "r", "r+1", "2r", "p-1", "2^256-1", "2^255", "3r", "8r", "8r-1", "r~64", "r~128", "r~192", "r+2^64", "r-2^64", "r+2^128", "r-2^128", "r+2^192", "r-2^192", "rnd"}
+CVals == {"0", "1", "255", "2^63", "2^64-1", "2^64", "2^127", "2^128-1", "2^191", "2^192-1", "h-1", "h", "h+1", "r-1", "r", "r+1", "2r", "p-1", "2^256-1", "2^255", "3r", "8r", "8r-1", "r~64", "r~128", "r~192", "r+2^64", "r-2^64", "r+2^128", "r-2^128", "r+2^192", "r-2^192", "rnd"}
 
 Powers  == {[Blank EXCEPT !.kind = "powers", !.n = n, !.val = v] : n \in {0, 1, 2, 5, 256, 257, 600}, v \in {"0", "1", "2", "r-1", "rnd1"}}
 Crs     == {[Blank EXCEPT !.kind = "crs", !.n = n] : n \in (IF Quick THEN {0, 1, 5, 256} ELSE {0, 1, 2, 5, 255, 256, 257, 300, 1000})}
@@ -25,6 +25,7 @@ Uncio   == {[Blank EXCEPT !.kind = "uncio", !.val = p, !.rep = r] : p \in Pts, r
 ProofEq == {[Blank EXCEPT !.kind = "proofeq", !.val = c, !.n = n] : c \in {"same", "other", "D", "Dproj", "a", "lenL", "lenR", "swapLR"}, n \in {0}}
            \cup {[Blank EXCEPT !.kind = "proofeq", !.val = c, !.n = n] : c \in {"L", "Lproj", "R"}, n \in (IF Quick THEN {0, 7} ELSE 0 .. 7)}
 Fr      == {[Blank EXCEPT !.kind = "fr", !.val = f, !.val2 = v, !.rep = r] : f \in {"lex", "cmp", "bit", "bigint", "string", "iface"}, v \in CVals, r \in Reps(2, 30)}
+           \cup {[Blank EXCEPT !.kind = "fr", !.val = "cmp", !.val2 = v, !.rep = r] : v \in CVals, r \in 1 .. 13}      \* every second operand class
            \cup {[Blank EXCEPT !.kind = "fr", !.val = "random", !.val2 = "0", !.rep = r] : r \in Reps(3, 200)}
 FrC15   == {c \in Fr : c.val \in {"lex", "cmp", "bigint"}}
 
